@@ -821,10 +821,17 @@ def _make_method(ts):
     return method
 
 
+def _countTestCases(self):
+    # a test case object that stands for several cases (ts['count'])
+    return int(_tspec(self).get('count', 1))
+
+
 def build_class(world, modname, cs):
     tests = {}
     d = {'__module__': modname, 'setUp': _setUp, 'tearDown': _tearDown,
          '_v_world': world}
+    if any(t.get('count') for t in cs['tests']):
+        d['countTestCases'] = _countTestCases
     if cs.get('qualname'):
         d['__qualname__'] = cs['qualname']
     for ts in cs['tests']:
